@@ -680,6 +680,10 @@ func dischargeShared(fx *FnExec, obls []*Obligation, opt dischargeOpts, slots ch
 		for _, alt := range o.Alts {
 			altScripts = append(altScripts, c.Query(o.Assume, c.Implies(o.PC, alt), nil, opt.timeoutMs))
 		}
+		var caseScripts []string
+		if !o.Cover {
+			caseScripts, _ = caseQueries(fx, o, goal, vals, opt.timeoutMs)
+		}
 		wg.Add(1)
 		slots <- struct{}{}
 		go func(o *Obligation, script string) {
@@ -707,7 +711,46 @@ func dischargeShared(fx *FnExec, obls []*Obligation, opt dischargeOpts, slots ch
 			if o.Cover && groundScript != "" && to > 3000 {
 				to = 3000
 			}
-			r := Solve(script, opt.workdir, o.Name, to, opt.all && !o.Cover)
+			var caseCh chan string
+			if !o.Cover && len(caseScripts) > 0 {
+				// contract clause `split E`: the case queries run beside the plain query; the obligation is
+				// proved by the plain query or by ALL cases, whichever comes first
+				caseCh = make(chan string, 1)
+				go func() {
+					be := ""
+					for i, cs := range caseScripts {
+						rc := Solve(cs, opt.workdir, fmt.Sprintf("%s.case%d", o.Name, i), to, false)
+						if rc.Status != "unsat" {
+							caseCh <- ""
+							return
+						}
+						be = rc.Backend
+					}
+					caseCh <- be + "+cases"
+				}()
+			}
+			var r SolveResult
+			if caseCh == nil {
+				r = Solve(script, opt.workdir, o.Name, to, opt.all && !o.Cover)
+			} else {
+				t0 := time.Now()
+				mainCh := make(chan SolveResult, 1)
+				go func() { mainCh <- Solve(script, opt.workdir, o.Name, to, opt.all && !o.Cover) }()
+				select {
+				case r = <-mainCh:
+					if r.Status != "unsat" && r.Status != "sat" {
+						if be := <-caseCh; be != "" {
+							r = SolveResult{Status: "unsat", Backend: be, Ms: time.Since(t0).Milliseconds()}
+						}
+					}
+				case be := <-caseCh:
+					if be != "" {
+						r = SolveResult{Status: "unsat", Backend: be, Ms: time.Since(t0).Milliseconds()}
+					} else {
+						r = <-mainCh
+					}
+				}
+			}
 			o.Status, o.Backend, o.Output = r.Status, r.Backend, r.Output
 			o.Ms += r.Ms
 			if o.Cover && r.Status != "sat" && r.Status != "unsat" && groundScript != "" {
